@@ -62,6 +62,10 @@ Variable serve_core : content -> key -> bytes -> N -> body.   (* generation, key
 Variable weightedf : content -> key -> bool.             (* the answer for this key uses weighted selection *)
 Variable refusedf : content -> key -> bool.              (* not authoritative, no delegation: REFUSED, never cached *)
 Variable finish : body -> request -> N -> response.      (* SetReply + Rcode + OPT(ECS of this request / location) + SizeAndDo + Scrub *)
+(* handler.go 178-181: a request with an unsupported EDNS version is answered at once (BADVERS,
+   built by coredns edns.Version from the request alone), before the location lookup and the cache *)
+Variable badvers : request -> bool.
+Variable badvers_reply : request -> response.
 
 Record entry := mkE { e_exp : N; e_body : body }.
 Definition cache := list (bytes * entry).
@@ -96,6 +100,7 @@ Inductive outcome := OHit | OExpired | OMiss | OOff.
 (* one query at time now (time.Now().Unix()) with random draws rnd *)
 Definition serve (cfg : cconfig) (g : content) (c : cache) (now rnd : N) (r : request)
   : cache * response * outcome :=
+  if badvers r then (c, badvers_reply r, OOff) else
   let k := key_of g r in
   let ks := key_string k in
   let compute (c0 : cache) (o : outcome) :=
@@ -118,6 +123,7 @@ Definition serve (cfg : cconfig) (g : content) (c : cache) (now rnd : N) (r : re
 
 (* the same query on a handler without cache *)
 Definition serve_plain (g : content) (rnd : N) (r : request) : response :=
+  if badvers r then badvers_reply r else
   let k := key_of g r in finish (serve_core g k (q_asked r) rnd) r (k_loc k).
 
 Inductive event :=
